@@ -163,3 +163,25 @@ MUTANTS += [
          old="                JsonUtil.is_equal(cached_operation.args, operation.args) and\n                JsonUtil.is_equal(\n                    cached_operation.kwargs, operation.kwargs) and\n",
          new="                JsonUtil.is_equal(cached_operation.args, operation.args) and\n"),
 ]
+
+MUTANTS += [
+    # ---- C16
+    dict(name='c16_raised_marker_not_written', props=['C16'], file=CACHE,
+         old="        if operation.raised:\n            operation_json['raised'] = True\n",
+         new=""),
+    dict(name='c16_return_value_via_str_float', props=['C16'], file=CACHE,
+         old="            'returnValue': operation.return_value,\n            'suboperations': suboperations_json,",
+         new="            'returnValue': json.loads(json.dumps(operation.return_value), parse_int=float),\n            'suboperations': suboperations_json,"),
+    dict(name='c16_created_dirs_dropped_on_write', props=['C16', 'C12'], file=CACHE,
+         old="            'createdDirs': created_dirs,",
+         new="            'createdDirs': [d for d in created_dirs if d.isascii()],"),
+    dict(name='c16_cache_written_latin1', props=['C16'], file=CACHE,
+         old="                json.dumps(cache_json, separators=(',', ':'), sort_keys=True))",
+         new="                json.dumps(cache_json, separators=(',', ':'), sort_keys=True, ensure_ascii=False).encode('utf-8', 'replace').decode('utf-8'))"),
+    dict(name='c16_cache_not_backed_up_before_write', props=['C16', 'C02'], file=FB,
+         old="            if (os.path.isfile(cache_filename) and\n                    self._backups.back_up_and_remove(cache_filename)):\n                logger.info(\n                    'Moved cache file {:s} to a temporary directory'.format(\n                        cache_filename))\n",
+         new=""),
+    dict(name='c16_write_cache_before_func', props=['C16'], file=FB,
+         old="            return_value = func(*((self,) + args), **kwargs)\n            self._is_finished_build = True",
+         new="            self._new_cache.write(cache_filename)\n            return_value = func(*((self,) + args), **kwargs)\n            self._is_finished_build = True"),
+]
